@@ -36,7 +36,26 @@ class StmtMixin:
         m = getattr(self, 'st_' + type(s).__name__, None)
         if m is None:
             _unsup('statement %s' % type(s).__name__, s)
-        return m(s, st.copy())
+        st = st.copy()
+        if self.c.ghost and not self.specmode:
+            key = self.stmt_key(s)
+            for j, g in enumerate(self.c.ghost.get(key, [])):
+                # ghost assertion: proved here, then available (trigger terms / lemma instances)
+                self.oblige_spec('ghost.%s.g%d' % (key, j), g, st, s, kind='ghost', old=self.entry, out=st.out)
+                self.assume_spec(g, st, old=self.entry, out=st.out)
+        return m(s, st)
+
+    def stmt_key(self, s):
+        """'<StmtType>#<ordinal in source order within the function>' (anchor for ghost assertions)"""
+        if not hasattr(self, '_stmt_ords'):
+            self._stmt_ords = {}
+            cnt = {}
+            nodes = sorted((n for n in ast.walk(self.fn) if isinstance(n, ast.stmt)), key=lambda n: (n.lineno, n.col_offset))
+            for n in nodes:
+                k = type(n).__name__
+                self._stmt_ords[id(n)] = '%s#%d' % (k, cnt.get(k, 0))
+                cnt[k] = cnt.get(k, 0) + 1
+        return self._stmt_ords.get(id(s), '?')
 
     # ------------------------------------------------------------------ simple statements
     def st_Pass(self, s, st):
@@ -95,6 +114,7 @@ class StmtMixin:
         o = st.out
         v = self.coerce(val, o.elem, st)
         st.out = SeqV(o.elem, z3.Store(o.arr, o.n, v.z), o.n + 1)
+        self.seq_lemmas(st.out, o, o.n, st)
 
     def do_yield_from(self, seq, st, node):
         if st.out is None:
